@@ -629,8 +629,8 @@ def check_walk(ctx: Context, rep, rule: str) -> None:
     cfg = CFG(s, env={"split": TRUTHY})
     live = cfg.live_nodes()
     sel = [n for n in live if n.kind == "stmt" and isinstance(
-        n.ast, (ast.Assign, ast.AnnAssign)) and ast.unparse(
-            n.ast.value).endswith("_dataset_info.splits[split]")]
+        n.ast, (ast.Assign, ast.AnnAssign)) and n.ast.value is not None and
+           ast.unparse(n.ast.value).endswith("_dataset_info.splits[split]")]
     rec = [n for n in live if n.kind == "call" and ctx.is_call(
         s, n.ast, method="_shard_info_iterator")]
     guard = [n for n in s.body_nodes() if isinstance(n, ast.If) and
